@@ -500,6 +500,7 @@ func init() {
 	alsoUnder(ruleC05RunTask, "C14")
 	alsoUnder(ruleC09Install, "C09")
 	alsoUnder(ruleC13NoDrop, "C05")
+	alsoUnder(ruleC15CopyLock, "C06")
 }
 
 func ruleC12SatOnly(cx *Ctx) { ruleC12Hooks(cx) }
